@@ -67,6 +67,7 @@ pub struct Weights {
     pub acall: u32,
     pub adrop: u32,
     pub reent: u32,
+    pub lc_collect_open: u32,
 }
 
 impl Default for Weights {
@@ -100,6 +101,7 @@ impl Default for Weights {
             acall: 0,
             adrop: 0,
             reent: 0,
+            lc_collect_open: 1,
         }
     }
 }
@@ -338,6 +340,7 @@ impl<'a> Gen<'a> {
             if !adapters.is_empty() && self.depth_call < 2 { w.acall } else { 0 },
             if !adapters.is_empty() { w.adrop } else { 0 },
             if self.depth_call < 2 { w.reent } else { 0 },
+            if !nested && self.m().can_collect_open(t) { w.lc_collect_open } else { 0 },
         ];
         if weights.iter().all(|x| *x == 0) {
             return None;
@@ -454,7 +457,8 @@ impl<'a> Gen<'a> {
                 return Some(self.gen_call(t, a));
             }
             26 => Op::ADrop { a: *self.rng.pick(&adapters) },
-            _ => return self.gen_reent(t),
+            27 => return self.gen_reent(t),
+            _ => Op::LcCollectOpen,
         };
         Some(op)
     }
@@ -613,9 +617,12 @@ impl<'a> Gen<'a> {
                 }
             }
             Op::LcCollectOpen => {
+                let before = self.prog.model.threads[t].frames.len();
                 self.push_raw(t, op);
-                self.probe_stack[t].pop();
-                self.probe_stack[t].pop();
+                let after = self.prog.model.threads[t].frames.len();
+                for _ in after..before {
+                    self.probe_stack[t].pop();
+                }
             }
             Op::ACall { .. } if probe => {
                 let a = self.push_raw(t, Op::CurLocal);
